@@ -421,12 +421,13 @@ class Models:
             arr = self.flist_count_arr(st)
             old_d = z3.Select(arr, dst.ref); s_ = z3.Select(arr, src)
             new_d = e.fresh('flist.count.sum', old_d.sort())
-            st.pc.append(QForall(lambda t: z3.Select(new_d, t) == z3.Select(old_d, t) + z3.Select(s_, t), 1, 'copy adds the source multiset'))
+            st.pc.append(QForall(lambda t: z3.Select(new_d, t) == z3.Select(old_d, t) + z3.Select(s_, t), 1, 'copy adds the source multiset', [new_d]))
             st.heap['flist.count'] = z3.Store(arr, dst.ref, new_d)
             e.hwrite(st, 'flist.len', dst.ref, self.flist_len(st, dst.ref) + self.flist_len(st, src))
             log = e.harr(st, 'flist.copied_from', z3.ArraySort(I, z3.ArraySort(I, I)))
             inner = z3.Select(log, dst.ref)
             st.heap['flist.copied_from'] = z3.Store(log, dst.ref, z3.Store(inner, src, z3.Select(inner, src) + 1))
+            st.ghost['copy_log'] = st.ghost.get('copy_log', GuardedLog()).add((dst.ref, src))
             return out
         raise Unsupported('std::copy form at %s' % e.where(n, fr))
 
@@ -720,7 +721,7 @@ class Models:
                     arr = e.harr(st, key, z3.ArraySort(I, z3.ArraySort(I, srt)))
                     oldd = z3.Select(arr, obj.ref)
                     newd = e.fresh(key + '!rs', oldd.sort())
-                    st.pc.append(QForall(lambda k, newd=newd, oldd=oldd, term=term: z3.Select(newd, k) == z3.If(k < old, z3.Select(oldd, k), term), 1, 'resize keeps the old prefix'))
+                    st.pc.append(QForall(lambda k, newd=newd, oldd=oldd, term=term: z3.Select(newd, k) == z3.If(k < old, z3.Select(oldd, k), term), 1, 'resize keeps the old prefix', [newd]))
                     st.heap[key] = z3.Store(arr, obj.ref, newd)
         else:
             if v is None: raise Unsupported('resize(n) of a vector of objects')
@@ -748,8 +749,8 @@ class Models:
         v = obj.ref
         st.pc.append(QForall(lambda k: z3.And(z3.Select(L2, elem(v, k)) == z3.If(k < old, z3.Select(L, elem(v, k)), 0),
                                               z3.Select(C2, elem(v, k)) == z3.If(k < old, z3.Select(Cn, elem(v, k)), z3.K(I, z3.IntVal(0))),
-                                              ev(elem(v, k)) == v), 1, 'resize keeps the old prefix, new elements are empty lists'))
-        st.pc.append(QForall(lambda r: z3.Implies(ev(r) != v, z3.And(z3.Select(L2, r) == z3.Select(L, r), z3.Select(C2, r) == z3.Select(Cn, r))), 1, 'other lists unchanged'))
+                                              ev(elem(v, k)) == v), 1, 'resize keeps the old prefix, new elements are empty lists', [L2, C2]))
+        st.pc.append(QForall(lambda r: z3.Implies(ev(r) != v, z3.And(z3.Select(L2, r) == z3.Select(L, r), z3.Select(C2, r) == z3.Select(Cn, r))), 1, 'other lists unchanged', [L2, C2]))
         st.heap['flist.len'] = L2; st.heap['flist.count'] = C2
 
     # range-for --------------------------------------------------------------------------
